@@ -128,35 +128,42 @@ def tok_kind(t):
 
 ALL_PACS = tuple(f"P{r}{v}" for r in ROWS_USED for v in PAC_VARIANTS)
 PROFILES = {
-  # pop-on, rows and row reuse: every PAC of the alphabet, no tab offsets / mid-row codes
-  "popon-layout": dict(styles=("RCL",), pacs=ALL_PACS, tos=(), mids=(), texts=("Tab", "Tc"),
-                       chars=(), bs=False, der=False, enm=True, edm=True, neutral=(), nl=False, doubling="always", rate="n"),
+  # pop-on, rows: every PAC of the alphabet, 1-3 rows per caption, successive captions with / without ENM and EDM
+  "popon-layout": dict(styles=("RCL",), pacs=ALL_PACS, tos=(), mids=(), texts=("Tab", "Tc"), chars=(), bs=False, der=False,
+                       enm=True, edm=True, neutral=(), nl=False, doubling="always", rate="n", reuse=False),
   # pop-on, cursor and pen: tab offsets, mid-row codes, backspace, special and extended characters
-  "popon-pen": dict(styles=("RCL",), pacs=("P15i0", "P14cy", "P15i8"), tos=("TO1", "TO2", "TO3"), mids=("Mit", "Mwh", "Mgu"),
+  "popon-pen": dict(styles=("RCL",), pacs=("P15i0", "P14cy", "P1i8"), tos=("TO1", "TO2", "TO3"), mids=("Mit", "Mwh", "Mgu"),
                     texts=("Tab", "Tc"), chars=("S", "X"), bs=True, der=False, enm=False, edm=False, neutral=(), nl=False,
-                    doubling="always", rate="d"),
+                    doubling="always", rate="d", reuse=False),
+  # pop-on, a row addressed again by a second PAC (overwriting, gaps)
+  "popon-reuse": dict(styles=("RCL",), pacs=("P15i0", "P15i8", "P15cy"), tos=("TO1",), mids=("Mit",), texts=("Tab", "Tc"),
+                      chars=("X",), bs=True, der=False, enm=False, edm=False, neutral=(), nl=False, doubling="always",
+                      rate="n", reuse=True),
   "rollup": dict(styles=("RU2", "RU3", "RU4"), pacs=("P15i0", "P15i8", "P15cy", "P14i0", "P14wu", "P1i0"), tos=(), mids=("Mit", "Mgu"),
                  texts=("Tab", "Tc"), chars=("X",), bs=True, der=False, enm=False, edm=True, neutral=(), nl=False,
-                 doubling="always", rate="d"),
+                 doubling="always", rate="d", reuse=True),
   "painton": dict(styles=("RDC",), pacs=("P15i0", "P15i8", "P15cy", "P14i0", "P14wu", "P1i8"), tos=(), mids=("Mit", "Mgu"),
                   texts=("Tab", "Tc"), chars=("X",), bs=True, der=True, enm=False, edm=True, neutral=(), nl=False,
-                  doubling="always", rate="n"),
+                  doubling="always", rate="n", reuse=True),
   # paint-on, words: the reader starts a new timed span at every blank
   "painton-words": dict(styles=("RDC",), pacs=("P15i0", "P14cy"), tos=(), mids=(), texts=("Tab", "Td_", "T_e"), chars=(),
-                        bs=False, der=False, enm=False, edm=True, neutral=(), nl=False, doubling="always", rate="d"),
+                        bs=False, der=False, enm=False, edm=True, neutral=(), nl=False, doubling="always", rate="d", reuse=True),
+  # alternations of the three styles (style changes only while both memories are blank)
   "mix": dict(styles=("RCL", "RU2", "RU3", "RDC"), pacs=("P15i0", "P14cy"), tos=(), mids=("Mit",), texts=("Tab",),
-              chars=(), bs=False, der=False, enm=True, edm=True, neutral=(), nl=False, doubling="always", rate="n"),
+              chars=(), bs=False, der=False, enm=True, edm=True, neutral=(), nl=False, doubling="always", rate="n", reuse=False),
   # decorations: single / doubled control codes x null and channel-2 interleaving x line breaks, both time code kinds
   "deco-n": dict(styles=("RCL", "RU2", "RDC"), pacs=("P15i0",), tos=("TO1",), mids=("Mit",), texts=("Tab",),
                  chars=("S", "X"), bs=True, der=False, enm=False, edm=True, neutral=("N", "C2", "C2P"), nl=True,
-                 doubling="both", rate="n"),
+                 doubling="both", rate="n", reuse=False),
   "deco-d": dict(styles=("RCL", "RU2", "RDC"), pacs=("P14i8",), tos=(), mids=(), texts=("Tab",),
                  chars=("S",), bs=True, der=False, enm=False, edm=True, neutral=("N", "C2"), nl=True,
-                 doubling="both", rate="d"),
+                 doubling="both", rate="d", reuse=False),
 }
 DEPTHS = {
-  "quick": {"popon-layout": 6, "popon-pen": 6, "rollup": 6, "painton": 6, "painton-words": 6, "mix": 8, "deco-n": 5, "deco-d": 5},
-  "thorough": {"popon-layout": 8, "popon-pen": 8, "rollup": 8, "painton": 8, "painton-words": 8, "mix": 10, "deco-n": 7, "deco-d": 7},
+  "quick": {"popon-layout": 7, "popon-pen": 6, "popon-reuse": 6, "rollup": 6, "painton": 6, "painton-words": 6, "mix": 8,
+            "deco-n": 5, "deco-d": 5},
+  "thorough": {"popon-layout": 9, "popon-pen": 8, "popon-reuse": 8, "rollup": 8, "painton": 8, "painton-words": 8, "mix": 10,
+               "deco-n": 7, "deco-d": 7},
 }
 
 # ------------------------------------------------------------------------------------------------------
@@ -186,18 +193,26 @@ class Proto:
       return [s for s in prof["styles"] if s != exclude]
 
     texts = list(prof["texts"]) + list(prof["chars"])
+
+    def pacs():
+      """PACs of the alphabet; without `reuse`, only those that address a row still empty in the memory written to"""
+      if prof.get("reuse", True) or self.style == "roll":
+        return list(prof["pacs"])
+      mem = self.dec.nm if self.style == "pop" else self.dec.dm
+      return [t for t in prof["pacs"] if mem[int(t[1:-2]) - 1].count(None) == R6.COLS]
+
     if ph == "init":
       out += starts()
     elif ph == "pop.start":
-      out += (["ENM"] if prof["enm"] else []) + list(prof["pacs"])
+      out += (["ENM"] if prof["enm"] else []) + pacs()
     elif ph == "pop.enm":
-      out += list(prof["pacs"])
+      out += pacs()
     elif ph == "paint.start":
-      out += list(prof["pacs"])
+      out += pacs()
     elif ph == "roll.start":
       out += ["CR"]
     elif ph == "roll.cr":
-      out += list(prof["pacs"]) + texts + list(prof["mids"])
+      out += pacs() + texts + list(prof["mids"])
     elif ph == "pac":
       out += (list(prof["tos"]) if self.style == "pop" else []) + list(prof["mids"]) + texts
     elif ph == "to":
@@ -209,13 +224,13 @@ class Proto:
       if prof["bs"]:
         out.append("BS")
       if self.style == "pop":
-        out += list(prof["pacs"]) + (["EDM"] if prof["edm"] else []) + ["EOC"]
+        out += pacs() + (["EDM"] if prof["edm"] else []) + ["EOC"]
       elif self.style == "roll":
         out += ["CR"] + [s for s in prof["styles"] if s.startswith("RU") and int(s[2]) >= self.depth]
         if prof["edm"]:
           out.append("EDM")
       elif self.style == "paint":
-        out += list(prof["pacs"]) + (["DER"] if prof["der"] else []) + (["EDM"] if prof["edm"] else [])
+        out += pacs() + (["DER"] if prof["der"] else []) + (["EDM"] if prof["edm"] else [])
     elif ph == "pop.preeoc":
       out += ["EOC"]
     elif ph == "pop.done":
@@ -232,7 +247,7 @@ class Proto:
       if both_blank:
         out += [s for s in prof["styles"] if not s.startswith("RU")]
     elif ph == "paint.erased":
-      out += list(prof["pacs"])
+      out += pacs()
       if both_blank:
         out += starts("RDC")
     # channel-2 text: printable pairs after a channel-2 control code belong to channel 2 (no protocol effect)
@@ -713,6 +728,7 @@ def judge(rend, view, refs, anticipate_rows=False):
   lo = -1
   li = -1
   nlines = len(line_k)
+  seen = set()
   for t in sorted(probes):
     if t < 0:
       continue
@@ -745,19 +761,22 @@ def judge(rend, view, refs, anticipate_rows=False):
     quiet = lo_t == hi
     if found is None:
       kind, g = best
-      findings.append((kind, "stable" if quiet else "transit",
-                       dict(t=t, line=li, word_range=[start, hi], observed=show(dscr), expected=show(refs[g + 1][0]),
-                            ref_mode=refs[g + 1][1], g=g)))
+      phase = "stable" if quiet else "transit"
+      if (kind, phase) not in seen:
+        seen.add((kind, phase))
+        findings.append((kind, phase,
+                         dict(t=t, line=li, word_range=[start, hi], observed=show(dscr), expected=show(refs[g + 1][0]),
+                              ref_mode=refs[g + 1][1], g=g)))
       prev_g = start
-      if len(findings) > 6:
-        break
       continue
     g, abs_ok, mode, depth = found
     prev_g = g
     if mode == "roll":
-      if len(dscr) > depth:
+      if len(dscr) > depth and "window" not in seen:
+        seen.add("window")
         findings.append(("window", "stable" if quiet else "transit", dict(t=t, observed=show(dscr), depth=depth, g=g)))
-      if not abs_ok and quiet:
+      if not abs_ok and quiet and "baserow" not in seen:
+        seen.add("baserow")
         findings.append(("baserow", "stable", dict(t=t, observed=show(dscr), expected=show(refs[g + 1][0]), g=g)))
   return findings
 
@@ -887,7 +906,7 @@ def _check_align(text, view, rend, out):
         break
 
 
-def _culprit(history, prof, dev=frozenset()):
+def _culprit(history, prof, dev=frozenset(), kind=None):
   """index of the token whose addition makes a main finding appear.  Pop-on loading is invisible until the flip:
   prefixes that end while a pop-on caption is being loaded are judged with an EOC appended."""
   for n in range(1, len(history) + 1):
@@ -898,7 +917,8 @@ def _culprit(history, prof, dev=frozenset()):
     probe = h
     if p.style == "pop" and p.phase in ("pop.start", "pop.enm", "pac", "to", "mid", "text", "pop.preeoc") and not p.ch2:
       probe = h + ["EOC+"]
-    if failing_kinds(probe, prof, dev):
+    ks = failing_kinds(probe, prof, dev)
+    if (kind in ks) if kind is not None else ks:
       return n - 1
   return len(history) - 1
 
@@ -1006,7 +1026,7 @@ def _attribute(history, prof, rend, view, findings, out):
   dev = frozenset(sub)
   # a disagreement that persists into a quiet period is reported as `stable`, a transient one as `transit`
   kind, phase, info = next((f for f in main if f[1] == "stable"), main[0])
-  idx = _culprit(history, prof, dev)
+  idx = _culprit(history, prof, dev, kind)
   culprit = history[idx]
   proto, ck, tokclass, last_pac, rowstate = _features(history, idx)
   clause = {"text": f"C08.{phase}", "gap": "C08.gap", "rows": "C08.rows", "style": "C08.style"}[kind]
@@ -1021,7 +1041,7 @@ def _attribute(history, prof, rend, view, findings, out):
       alt = history[:idx] + [base_tok(culprit)] + history[idx + 1:]
       if not failing_kinds(alt, prof, dev):
         clause = "C08.dup"
-  disc = f"kind={kind},mode={proto.style},tok={tokclass},pac={last_pac},row={rowstate}"
+  disc = f"kind={kind},mode={proto.style},tok={tokclass},row={rowstate}"
   out.violations.append((clause, disc, info.get("observed"), info.get("expected"),
                          f"{phase} at frame {info['t']} (line {info['line']}), reference words {info['word_range']}; "
                          f"culprit token #{idx} {culprit}" + (f"; judged against the reference with {'+'.join(sub)}" if sub else "")))
